@@ -6,15 +6,19 @@ import random
 from common import V, digest
 
 CHARS = 'abcxyzé✓ 0123'
+HOSTILE = ["'", '"', '%', '_', '\\', ';', '--', '\n', '\t', '😀', 'A', 'Z', '`', '(', ')', '?', '$1', ':x', '名', '\u00a0', 'NULL', "''", 'é', '~']
 
 
 def _s(r):
+    if r.random() < 0.35:
+        # text that SQL, LIKE patterns, bind syntax or a collation could treat specially
+        return ''.join(r.choice(HOSTILE) if r.random() < 0.6 else r.choice(CHARS) for _ in range(r.randint(0, 6)))
     return ''.join(r.choice(CHARS) for _ in range(r.randint(0, 6)))
 
 
 def rec(coll, r, i):
-    big = lambda: r.choice([0, 1, -1, r.randint(-10 ** 12, 10 ** 12), r.randint(0, 99), 2 ** 31 + r.randint(0, 9), 10, 9, 100])
-    u = lambda f: f'{f}-{i}-{_s(r)}'
+    big = lambda: r.choice([0, 1, -1, r.randint(-10 ** 12, 10 ** 12), r.randint(0, 99), 2 ** 31 + r.randint(0, 9), 10, 9, 100, 2 ** 53 + r.randint(0, 3), -(2 ** 53) - r.randint(0, 3), 2 ** 63 - 1 - r.randint(0, 2), -(2 ** 63) + r.randint(0, 2)])
+    u = lambda f: (f'{f}-{i}-{_s(r)}' if r.random() < 0.93 else _s(r))       # now and then no distinguishing prefix at all (also the empty string)
     opt = lambda f: None if r.random() < 0.4 else u(f)
     if coll == 'tasks':
         return dict(id=f't{i}', pid=r.choice(['p1', 'p2', 'p3']), tid=u('tid'), node_data=u('nd'), kind=r.choice(['step', 'act', 'workflow']), prev=opt('prev'), name=u('name'),
